@@ -2,7 +2,7 @@
    bool/option/unit/list/prod/sumbool mapped to OCaml's; N, positive and nat stay
    Coq inductives). *)
 From Coq Require Import Extraction ExtrOcamlBasic.
-From MS Require Import L2 Spec.C02 Spec.C03 Spec.C04 Spec.C05 Spec.C06 Spec.C07 Spec.C09 Spec.C08 Spec.C12 Spec.C13 Spec.C18 Spec.C20 Spec.C16 Spec.C14 Spec.C15 Spec.C10Known Spec.C17 Spec.C12x Spec.C14ref Spec.C16ref.
+From MS Require Import L2 Spec.C02 Spec.C03 Spec.C04 Spec.C05 Spec.C06 Spec.C07 Spec.C09 Spec.C08 Spec.C12 Spec.C13 Spec.C18 Spec.C20 Spec.C16 Spec.C14 Spec.C15 Spec.C10Known Spec.C17 Spec.C12x Spec.C14ref Spec.C16ref Spec.Later.
 Extraction "model.ml" reply siphash24 cookie search_next search_next_end smack_ok
   ok_C02 ok_C03 ok_C04 ok_C05 ok_C06 ok_C07 ref_step ref_keys dedup length
   own_data_of_frame collides_with_frame ok_C12
@@ -17,4 +17,5 @@ Extraction "model.ml" reply siphash24 cookie search_next search_next_end smack_o
   ok_C17_udp ok_C17_tcp
   ok_C12x ok_C12x_tcp ok_C12id_udp ok_C12id_tcp
   ok_C14_udp_ref ok_C14_udp_ref_strict c14_c10_class_frame c14_positive_frame_ref c14_negative_frame_ref
-  ok_C16_udp_ref ok_C16_tcp_ref ok_C16_udp_ref_strict ok_C16_tcp_ref_strict.
+  ok_C16_udp_ref ok_C16_tcp_ref ok_C16_udp_ref_strict ok_C16_tcp_ref_strict
+  ok_C15_tcp_later ok_C18_tcp_later_ssh ok_C18_tcp_later_ghost.
